@@ -23,9 +23,12 @@ MEMBERS = {
     "b": '~id:b~ $[*][ stop(symkb() == line_number()) @c = count_lines() gt(line_number(), symtb()) ]',
     "c": '~id:c return-mode: no-matches~ $[*][ push("u", line_number()) gt(line_number(), symtc()) ]',
     "d": '~id:d run-mode: no-run~ $[*][ push("w", line_number()) print("d ran") ]',
+    "e": '~id:e~ $[*][ push("x", line_number()) last.nocontrib() -> @lastat = line_number() gt(line_number(), symta()) print("e $.csvpath.line_number") ]',
 }
 # the same file with a blank first line (the headers are then the first non-blank record)
 DATA_LEAD_BLANK = "\n" + kitpaths.DATA
+# the same file ending in blank lines
+DATA_TRAIL_BLANK = kitpaths.DATA + "\n\n"
 ND = kitpaths.NDATA
 
 
@@ -72,19 +75,21 @@ ENC = ["csvpath/csvpaths.py:CsvPaths.collect_paths/_load_csvpath/collect_by_line
     tiers={"quick": {"timeout": 2400, "K": {"LO": -1, "HI": 3}, "shards": product(order=["ab"], tc=[0], tb=[0], kb=[-1, 2], agree=[False, True]) + product(order=["ba"], tc=[0], tb=[0], kb=[1], agree=[False, True])
                      + product(order=["ac", "ca"], tb=[0], kb=[-1], agree=[False, True], ta=[1])
                      + product(order=["ab"], tc=[0], tb=[0], kb=[2], agree=[False], kind=["ff", "next"])
-                     + product(order=["ad", "da"], tc=[0], tb=[0], kb=[-1], agree=[False]) + product(order=["ab"], tc=[0], tb=[0], kb=[2], agree=[False], lead=[True])},
+                     + product(order=["ad", "da"], tc=[0], tb=[0], kb=[-1], agree=[False]) + product(order=["ab"], tc=[0], tb=[0], kb=[2], agree=[False], lead=[True])
+                     + product(order=["ea"], tc=[0], tb=[0], kb=[-1], agree=[False], trail=[True, False])},
            "thorough": {"timeout": 6000, "K": {"LO": -1, "HI": 5}, "shards": product(order=["ab", "ba", "abc", "cab"], agree=[False, True], tb=[-1, 1, 3], tc=[0, 2])
                      + product(order=["ab", "cab"], agree=[False, True], tb=[0], tc=[1], kind=["ff", "next"])
-                     + product(order=["ad", "da", "adb"], agree=[False, True], tb=[0], tc=[1]) + product(order=["ab", "ca"], agree=[False, True], tb=[0], tc=[1], lead=[True])}},
+                     + product(order=["ad", "da", "adb"], agree=[False, True], tb=[0], tc=[1]) + product(order=["ab", "ca"], agree=[False, True], tb=[0], tc=[1], lead=[True])
+                     + product(order=["ea", "be"], agree=[False, True], tb=[0], tc=[1], trail=[True, False])}},
 )
-def schedules(order: str, agree: bool, ta: int, tb: int, kb: int, tc: int, kind: str = "collect", lead: bool = False) -> str:
+def schedules(order: str, agree: bool, ta: int, tb: int, kb: int, tc: int, kind: str = "collect", lead: bool = False, trail: bool = False) -> str:
     kit.HOLD["symta"] = ta
     kit.HOLD["symtb"] = tb
     kit.HOLD["symkb"] = kb
     kit.HOLD["symtc"] = tc
     texts = [MEMBERS[m] for m in order]
     with NoTracing():
-        root, cs = kitpaths.env({"g": texts}, data=DATA_LEAD_BLANK if lead else kitpaths.DATA)
+        root, cs = kitpaths.env({"g": texts}, data=DATA_LEAD_BLANK if lead else (DATA_TRAIL_BLANK if trail else kitpaths.DATA))
     alone = [_standalone(t) for t in texts]
     with NoTracing():
         cs2 = kitpaths.new_instance()
